@@ -22,6 +22,7 @@ VF_COMP(uint64_t, 2, 0, float);
 VF_COMP(uint32_t, 1, 2, double);
 #endif
 #if VF_GROUP == 4
+VF_COMP_SWEEP(uint64_t, 1, 4, float);
 VF_COMP(uint16_t, 8, 256, float);
 VF_COMP(uint64_t, 4, 256, float);
 #endif
